@@ -145,8 +145,15 @@ def sampleHtml : Str :=
   L "<h1>Title: a_b * c</h1>\n<p>first line, 3.14) x | y # z\nsecond &amp; AT&amp;T &lt;, \"q\"</p>\n<blockquote>\n<h2>Inner</h2>\n<blockquote>\n<p>deep text</p>\n<hr />\n</blockquote>\n<hr />\n</blockquote>\n<hr />\n"
 
 /-- the HTML written directly from the tree (both spellings: same tree) -/
-example : htmlOf {} sample = sampleHtml ∧ htmlOf {} sample' = sampleHtml ∧ shapes sample = shapes sample' := by
-  refine ⟨?_, ?_, ?_⟩ <;> decide +kernel
+example : htmlOf {} sample = sampleHtml ∧ htmlOf {} sample' = sampleHtml := by
+  refine ⟨?_, ?_⟩ <;> decide +kernel
+
+theorem sample_shapes : shapes sample = shapes sample' := by
+  simp only [sample, sample', shapes, shape, List.map_cons, List.map_nil, Document.joinNl]
+  have e1 : strip (L "  first line, 3.14) x | y # z\n") = strip (L "first line, 3.14) x | y # z\n") := by decide +kernel
+  have e2 : strip (L "second & AT&T <, \"q\"\n") = strip (L "   second & AT&T <, \"q\"\n") := by decide +kernel
+  have e3 : strip (L "deep text\n") = strip (L "  deep text\n") := by decide +kernel
+  rw [e1, e2, e3]
 
 example : needs sample = 176 ∧ needs sample' = 176 := by decide +kernel
 
@@ -157,7 +164,7 @@ example : Config.renderHtml {} 176 (writes sample).flatten = some sampleHtml := 
 
 /-- … and on the other spelling (instance of `C03_spelling_independent_partial`) -/
 example : Config.renderHtml {} 176 (writes sample').flatten = Config.renderHtml {} 176 (writes sample).flatten :=
-  (C03_spelling_independent_partial {} sample sample' sample_ok sample'_ok (by decide) (by decide +kernel) 176
+  (C03_spelling_independent_partial {} sample sample' sample_ok sample'_ok (by decide) sample_shapes 176
     (by decide +kernel) (by decide +kernel)).2
 
 /-- the same two facts by evaluating the model on the text, without the theorem (the real renderer gives this
